@@ -55,16 +55,13 @@ TruthMode(ek) == IF ek = "eq1" THEN "all" ELSE IF ek = "eq0" THEN "nil" ELSE "ow
 Map(es) == [j \in 1..Len(es) |-> <<K(es[j]) + 10, 0>>]
 Filter(m, es) == SelectSeq(es, LAMBDA e : P(m, e))
 FilterFalse(m, es) == SelectSeq(es, LAMBDA e : ~P(m, e))
-(* sorted(): stable for reverse=False and for reverse=True.  The place of an element is the number of elements
-   that go before it: those with a strictly smaller (reverse: strictly greater) key, and those with an EQUAL key
-   that come earlier in the input - equal keys keep their input order in both directions. *)
-Before(m, es, p, q, rev) ==      \* es[q] goes before es[p]
-  \/ (IF rev THEN F(m, es[q]) > F(m, es[p]) ELSE F(m, es[q]) < F(m, es[p]))
-  \/ (F(m, es[q]) = F(m, es[p]) /\ q < p)
+(* sorted(): ascending (reverse: descending) in the key, and STABLE in both directions: the elements with one key
+   value stay in their input order.  Keys range over -1..2, so the result is the concatenation of the input's
+   subsequences per key value (SortOracleOK below checks sortedness, stability and permutation on it). *)
+Bucket(m, es, v) == SelectSeq(es, LAMBDA e : F(m, e) = v)
 StableSort(m, es, rev) ==
-  LET n == Len(es)
-      rank == [p \in 1..n |-> Cardinality({q \in 1..n : Before(m, es, p, q, rev)})]
-  IN [j \in 1..n |-> es[CHOOSE p \in 1..n : rank[p] = j - 1]]
+  IF rev THEN Bucket(m, es, 2) \o Bucket(m, es, 1) \o Bucket(m, es, 0) \o Bucket(m, es, -1)
+  ELSE Bucket(m, es, -1) \o Bucket(m, es, 0) \o Bucket(m, es, 1) \o Bucket(m, es, 2)
 FirstMax(m, es) == es[CHOOSE j \in 1..Len(es) : /\ \A l \in 1..Len(es) : F(m, es[l]) <= F(m, es[j])
                                                 /\ \A l \in 1..(j - 1) : F(m, es[l]) < F(m, es[j])]
 FirstMin(m, es) == es[CHOOSE j \in 1..Len(es) : /\ \A l \in 1..Len(es) : F(m, es[l]) >= F(m, es[j])
